@@ -1,0 +1,72 @@
+package internal
+
+import (
+	"testing"
+	"time"
+
+	"github.com/stretchr/testify/require"
+)
+
+const secondaryTestDeadline = 5 * time.Second
+
+func newSecondaryTestStore(secondary SecondaryCache[int, int], size int64) *Store[int, int] {
+	return NewStore(&StoreOptions[int, int]{
+		MaxSize:        size,
+		SecondaryCache: secondary,
+		Workers:        2,
+		Probability:    1,
+	})
+}
+
+// inMemory reports whether key is still in the shard hashmap,
+// without touching the policy.
+func inMemory(s *Store[int, int], key int) bool {
+	_, index := s.index(key)
+	shard := s.shards[index]
+	tk := shard.mu.RLock()
+	defer shard.mu.RUnlock(tk)
+	_, ok := shard.get(key)
+	return ok
+}
+
+// waitDemoted waits until one of the keys in [0, n) is evicted from memory
+// and written to secondary cache, then returns that key.
+func waitDemoted(t *testing.T, s *Store[int, int], secondary SecondaryCache[int, int], n int) int {
+	t.Helper()
+	s.Wait()
+	deadline := time.Now().Add(secondaryTestDeadline)
+	for {
+		for key := 0; key < n; key++ {
+			if inMemory(s, key) {
+				continue
+			}
+			if _, _, _, ok, _ := secondary.Get(key); ok {
+				return key
+			}
+		}
+		if time.Now().After(deadline) {
+			t.Fatal("no key demoted to secondary cache")
+		}
+		time.Sleep(time.Millisecond)
+	}
+}
+
+func TestStore_SecondaryDeleteDemotedKey(t *testing.T) {
+	secondary := NewSimpleMapSecondary[int, int]()
+	store := newSecondaryTestStore(secondary, 10)
+	defer store.Close()
+
+	for i := 0; i < 100; i++ {
+		require.True(t, store.Set(i, i, 1, time.Hour))
+	}
+	key := waitDemoted(t, store, secondary, 100)
+
+	require.Nil(t, store.DeleteWithSecondary(key))
+
+	_, _, _, ok, err := secondary.Get(key)
+	require.Nil(t, err)
+	require.False(t, ok, "deleted key still in secondary cache")
+	_, ok, err = store.GetWithSecodary(key)
+	require.Nil(t, err)
+	require.False(t, ok, "deleted key still retrievable")
+}
